@@ -11,7 +11,8 @@
    Timer constants of Cloud.tla are overridden with small values in the configuration files. *)
 EXTENDS Cloud, TLC, SequencesExt
 
-CONSTANTS N,            \* nodes 1..N (address of node n is n)
+CONSTANTS DataPlane,    \* "off" | "router" | "switch": interface frames and payload datagrams are part of the run
+          N,            \* nodes 1..N (address of node n is n)
           MaxTime,      \* ticks explored
           Silent,       \* a node that may fall silent or crash and restart (0: nobody)
           FaultKind,    \* "silent" | "restart" | "lossy" (any datagram may be lost, at most MaxLoss of them)
@@ -21,7 +22,13 @@ Nodes == 1..N
 \* configurations: heterogeneous timeouts, one claim per node; bootstrap: node n dials node n-1 (a path)
 TOf(n) == IF n = 1 THEN 3 ELSE IF n = 2 THEN 5 ELSE 4
 Cfg(n) == [self |-> n, nid |-> <<n, 0>>, T |-> TOf(n), ka |-> -1, adv |-> {}, key |-> "k", trusted |-> {"k"},
-           claims |-> <<"r" \o ToString(n)>>, plain |-> FALSE, learn |-> FALSE, bc |-> FALSE, st |-> 3]
+           claims |-> IF DataPlane = "switch" THEN <<>> ELSE <<"r" \o ToString(n)>>, plain |-> FALSE,
+           learn |-> DataPlane = "switch", bc |-> DataPlane = "switch", st |-> 2]
+\* data plane: one-byte addresses; node n claims exactly <<n>> (range "r<n>" = <<n>>/8); stations <<11>>, <<12>>, ... sit
+\* behind nodes 1, 2, ... in the switch configuration; <<9>> belongs to nobody
+RangeBytes(r) == CHOOSE n \in Nodes : r = "r" \o ToString(n)
+WithRanges(s) == [s EXCEPT !.cx = {[p |-> x.p, r |-> x.r, exp |-> x.exp, rb |-> <<RangeBytes(x.r)>>, rl |-> 8] : x \in s.claims}]
+Dests == IF DataPlane = "switch" THEN {<<10 + n>> : n \in Nodes} ELSE {<<n>> : n \in Nodes} \cup {<<9>>}
 
 VARIABLES now, st, net, turn, silentFrom, lost
 vars == <<now, st, net, turn, silentFrom, lost>>
@@ -96,6 +103,19 @@ Deliver(d) ==
             ELSE Apply(m, d, "err", NoInfo, {})
        [] d.kind = "info" ->
             IF route = "peer" THEN Apply(m, d, "nodeinfo", d.info, {}) ELSE Apply(m, d, "ignored", NoInfo, {})
+       [] d.kind = "data" ->      \* payload: delivered to the interface by a node that holds the sender as peer; a switch learns
+            /\ st' = IF route = "peer"
+                     THEN [st EXCEPT ![m].cache = LearnFrom(st[m], Cfg(m), d.from, d.info.fsrc, now)] ELSE st
+            /\ net' = net \ {d}
+            /\ UNCHANGED <<now, turn, silentFrom, lost>>
+
+\* a frame for destination dst is read from the interface of node n (handle_interface_data)
+Frame(n, dst) ==
+  /\ DataPlane # "off" /\ turn = 0 /\ net = {} /\ now > 0
+  /\ \E o \in IfaceOutcomes(WithRanges(st[n]), Cfg(n), dst, now) :
+       /\ st' = [st EXCEPT ![n].cache = o.cache]
+       /\ net' = Send(n, net, {[from |-> n, to |-> h, kind |-> "data", info |-> [fsrc |-> <<10 + n>>, fdst |-> dst]] : h \in o.hops \cap Nodes})
+  /\ UNCHANGED <<now, turn, silentFrom, lost>>
 
 \* the tick ends when everything is delivered
 Tick == /\ turn = 0 /\ net = {} /\ now < MaxTime
@@ -124,6 +144,7 @@ Lose(d) == /\ FaultKind = "lossy" /\ turn = 0 /\ d \in net /\ lost < MaxLoss /\ 
 Next == \/ \E n \in Nodes : Hk(n)
         \/ \E d \in net : Lose(d)
         \/ \E d \in net : Deliver(d)
+        \/ \E n \in Nodes, dst \in Dests : Frame(n, dst)
         \/ Tick \/ FallSilent \/ Restart
 Spec == Init /\ [][Next]_vars
 
@@ -161,5 +182,17 @@ McOwnReset == 5
 \* exchange round) - whatever was lost before
 RecoveryHorizon == 5 + McRetries + 4
 RecoversBy == (FaultKind = "lossy" /\ now >= LossUntil + RecoveryHorizon /\ Quiet) => \A n \in Nodes : Addrs(st[n].peers) = Others(n)
+\* C11 / C12 / C13 at design level: a cached or learned decision points at a peer, lives no longer than the switch
+\* timeout, and - when it came from a claim - no longer than a claim of that peer that covers the address
+CacheOK ==
+  \A n \in Nodes : \A x \in st[n].cache :
+     /\ turn = 0 => x.p \in Addrs(st[n].peers)
+     /\ x.exp <= now + Cfg(n).st
+     /\ DataPlane = "router" => \E y \in st[n].claims : y.p = x.p /\ <<RangeBytes(y.r)>> = x.a /\ x.exp <= y.exp
+\* sanity (must be refuted): decisions do get cached / addresses learned, and payload does travel
+NothingCached == \A n \in Nodes : st[n].cache = {}
+\* a router never sends a frame for an address nobody claims, and never to anybody but the claimant
+RouterDataOK ==
+  DataPlane = "router" => \A d \in net : d.kind = "data" => (d.info.fdst = <<d.to>> /\ d.info.fdst # <<9>>)
 Bound == now <= MaxTime
 =============================================================================
